@@ -248,6 +248,10 @@ func c17Selection(e *Env) {
 					if _, isLen := cmp.X.(*ssa.Call); isLen {
 						s = -1 // force "not strictly longer"
 					}
+				case cmp.Op == token.LEQ:
+					if _, isLen := cmp.X.(*ssa.Call); isLen {
+						s = 1 // len(pattern) <= n IS "not strictly longer" (De Morgan form of the acceptance test)
+					}
 				case cmp.Op == token.GEQ:
 					if _, isLen := cmp.X.(*ssa.Call); isLen {
 						return 0 // ≥ would let an equally long pattern replace: flagged below
